@@ -201,6 +201,9 @@ class DatasetSpec(object):
                         os.symlink(d / '_store' / fn, d / fn)
                     i += p
                     dat_paths.append(fn)
+        if self.notes.get('ks2_templates_ind') and self.template_ind is None and self.names == 'ks':
+            # Kilosort 2 ships dense templates plus a trivial column table under this (other) name; phylib ignores it
+            np.save(d / 'templates_ind.npy', np.tile(np.arange(self.templates.shape[2]), (self.templates.shape[0], 1)).astype(np.float64))
         for fn, text in self.tsv.items():
             with open(d / fn, 'w', newline='') as f:
                 f.write(text)
